@@ -1,9 +1,10 @@
 """C15  fn.asyncio() under an event loop matches the asynq result.
 
 Batch-free, tree-shaped programs (tasks, ConstFutures, None, non-futures, nested tuple/list/dict of any width and depth,
-raise of Exceptions and of BaseException-only errors, try/except Exception and try/except BaseException at every yield,
-return and asynq.result() of every kind of object - exception instances, falsy / unhashable / awaitable / future-like
-objects, subclasses of the built-in containers -, plain synchronous calls) are interpreted on the REAL library in five ways:
+instances of SUBCLASSES of tuple/list/dict, async_proxy functions returning a future / None / a container, raise of
+Exceptions and of BaseException-only errors, try/except Exception and try/except BaseException at every yield, return and
+asynq.result() of every kind of object - exception instances, falsy / unhashable / awaitable / future-like objects,
+subclasses of the built-in containers -, plain synchronous calls) are interpreted on the REAL library in five ways:
   call    fn(args)                               value   fn.asynq(args).value()
   aio     `await fn.asyncio(args)` inside an observer coroutine (same contextvars context) under asyncio.run
   aiorun  asyncio.run(fn.asyncio(args))          aiotask ensure_future(fn.asyncio(args)) beside a flag-watching coroutine
@@ -11,9 +12,14 @@ through plain functions, methods (bound and through the class), pure functions, 
 non-generator functions, with positional and keyword arguments, with and without an explicit asyncio_fn; with fresh
 decorated functions for every run or one set shared by the five runs in a random order; first or second use.
 The Lean model (AsynqModel.Lib.Asyncio) runs the same program (correspondence, per-task projection of the logs) and the
-Lean observer `Asyncio.spec` - proved of the model for every program whose handlers do not catch BaseException or that
-raises no BaseException-only error (C15_spec_holds_partial; C15_base_handler_counterexample for the rest) - judges the
-implementation's observations on their own."""
+Lean observer `Asyncio.spec` judges the implementation's observations on their own: flag off before / after / on inside,
+siblings complete, synchronous calls refused, same outcome as fn(args) and the same start / deliveries at every yield / end
+of EVERY task as under fn(args) (when the asyncio run attempted no synchronous call), the run ends with the end of its root
+task carrying the outcome.  `spec` reads of a log only what the correspondence check compares (per-task sub-logs, first
+event; never the order of events of different tasks): CORR=ok implies SPEC = SPECM (C15_spec_respects_correspondence).  `spec` is proved of the model for every program that satisfies `Prog.safe` (no handler
+catches BaseException, or no BaseException-only error is raised) and `Prog.plainY` (no container-subclass yield, no
+async_proxy function returning a non-future): C15_spec_holds_partial; for the rest the code as it is violates the
+property: C15_base_handler_counterexample, C15_container_subclass_counterexample, C15_proxy_value_counterexample."""
 import hashlib
 import json
 import random
@@ -21,59 +27,90 @@ import random
 PID = "C15"
 LEVEL = "proof"
 LEAN_MODULES = ["AsynqModel.Theorems.C15"]
-THEOREMS = [
+# statements with content (induction over all programs); hypotheses in DESIGN.md section 5 C15 / MANIFEST
+HEADLINE_THEOREMS = [
     "AsynqModel.Asyncio.C15_equiv_partial",
     "AsynqModel.Asyncio.C15_equiv_run_partial",
-    "AsynqModel.Asyncio.C15_result_is_return",
-    "AsynqModel.Asyncio.C15_mode_confined",
+    "AsynqModel.Asyncio.C15_deliveries_agree_partial",
+    "AsynqModel.Asyncio.C15_deliveries_agree_per_task_partial",
+    "AsynqModel.Asyncio.C15_run_ends_with_outcome",
+    "AsynqModel.Asyncio.C15_no_result_escapes",
     "AsynqModel.Asyncio.C15_mode_confined_nested",
     "AsynqModel.Asyncio.C15_mode_untouched_by_asynq",
-    "AsynqModel.Asyncio.C15_sync_refused",
-    "AsynqModel.Asyncio.C15_sync_refused_top",
     "AsynqModel.Asyncio.C15_asyncio_run_good",
     "AsynqModel.Asyncio.C15_asynq_run_good",
-    "AsynqModel.Asyncio.C15_gather_first_failure",
     "AsynqModel.Asyncio.C15_first_failure_wins",
     "AsynqModel.Asyncio.C15_shape",
-    "AsynqModel.Asyncio.C15_spec_holds_partial",
     "AsynqModel.Asyncio.C15_gather_all_ok",
     "AsynqModel.Asyncio.C15_failure_is_an_element",
+    "AsynqModel.Asyncio.C15_spec_holds_partial",
+    "AsynqModel.Asyncio.C15_spec_respects_correspondence",
+]
+# where the code as it is violates the property, and the necessity of every hypothesis (machine-checked witnesses)
+COUNTEREXAMPLE_THEOREMS = [
     "AsynqModel.Asyncio.C15_base_error_leaves_asyncio",
     "AsynqModel.Asyncio.C15_base_error_delivered_by_asynq",
     "AsynqModel.Asyncio.C15_base_handler_counterexample",
+    "AsynqModel.Asyncio.C15_container_subclass_counterexample",
+    "AsynqModel.Asyncio.C15_proxy_value_counterexample",
+    "AsynqModel.Asyncio.C15_noSync_necessary",
+    "AsynqModel.Asyncio.C15_flag_off_necessary",
 ]
+# hold BY CONSTRUCTION of the model (one unfolding of a definition): they document how the model renders the code; their
+# content is the correspondence check, not their proofs.  Not headline claims.
+BY_CONSTRUCTION_THEOREMS = [
+    "AsynqModel.Asyncio.C15_mode_confined",
+    "AsynqModel.Asyncio.C15_sync_refused",
+    "AsynqModel.Asyncio.C15_sync_refused_top",
+    "AsynqModel.Asyncio.C15_result_is_return",
+    "AsynqModel.Asyncio.C15_gather_first_failure",
+]
+THEOREMS = HEADLINE_THEOREMS + COUNTEREXAMPLE_THEOREMS + BY_CONSTRUCTION_THEOREMS
 BUILDS = {"quick": ["py"], "thorough": ["py", "cy"]}
-RULE = ("corpus (16 minimised programs), a fixed family (every call kind x explicit asyncio_fn x 14 body shapes; every child "
+RULE = ("corpus (18 minimised programs), a fixed family (every call kind x explicit asyncio_fn x 14 body shapes; every child "
         "kind under a bare and a gathered yield; dict/list/tuple whose FIRST failure in structure order is the slowest with a "
         "slower success beside it; empty structures; synchronous calls of every kind; BaseException-only errors raised by every "
-        "kind of child, first / second in structure order beside an ordinary failure, passing through an intermediate task), a "
+        "kind of child, first / second in structure order beside an ordinary failure, passing through an intermediate task; "
+        "instances of subclasses of tuple / list / dict yielded bare, nested, empty, beside failing tasks; async_proxy functions "
+        "returning None / list / tuple / dict, bare and inside a list), a "
         "value family (13 unusual kinds of returned object x 7 places a value travels through x call kinds), SIZE families with "
         "the size as a parameter (wide: one yield of 5..513 (thorough ..2049) entries with failures at chosen positions, list / "
         "tuple / dict, nested or not; deep: containers nested 4..100 (..200) levels; long: one generator resumed 5..1001 (..2500) "
         "times; chain: 6..100 (..200) tasks each awaiting the next) and grammar-generated batch-free programs: 1-15 tasks, depth "
         "<= 5, yields of None / non-future / ConstFuture / proxy ConstFuture / child task / nested tuple-list-dict (0-4, "
-        "sometimes 5-40 elements, 3 levels), raise / raiseB / re-raise / return / result() of plain or unusual objects, handler "
+        "sometimes 5-40 elements, 3 levels), in 1 program of 8 also container-subclass instances or proxy functions returning "
+        "None / a container, raise / raiseB / re-raise / return / result() of plain or unusual objects, handler "
         "(except Exception or except BaseException) or no handler at every yield, plain synchronous calls (the malformed stream: "
         "non-futures and synchronous calls under asyncio); each program is run in five ways (call, value, aio, aiorun, aiotask) "
         "with fresh or shared decorated functions, first or second use. non-trivial = at least 2 tasks and (a failure delivered "
         "at a yield or a nested structure); distinct by case hash")
 TRUSTED = [
-    "hand-written Lean model AsynqModel.Lib.Asyncio tied to the code by this differential run only",
+    "hand-written Lean model AsynqModel.Lib.Asyncio tied to the code by this differential run only; its reference evaluator "
+    "bodyR ('what fn(args) gives') is tied to the real fn(args) / fn.asynq(args).value() by the conventions call and value of "
+    "this run, not to Core.Seq by a theorem",
     "Python harness checks/c15.py (interpreter of the program language on the real decorators, identity tokens, "
     "per-task projection of the event logs; for programs that raise BaseException-only errors the coroutine of a task is "
-    "awaited through a harness wrapper that logs the end of a task whose abandoned generator cannot)",
+    "awaited through a harness wrapper that logs the end of a task whose abandoned generator cannot; tasks inside a "
+    "container-subclass instance or inside what an async_proxy function returned count for 'all yielded together have "
+    "completed' only if the engine started them)",
     "asyncio event loop, contextvars (ensure_future copies the context), CPython generator/with semantics",
 ]
 ASSUMPTIONS = [
     "await x = run x to completion; the order in which sibling coroutines interleave is the event loop's business "
     "(logs are compared per task, never across tasks)",
-    "programs are batch-free trees: every yielded future is created in the yield (no shared tasks, no batch items, no "
-    "ErrorFuture / lazy Future, which resolve_awaitables does not know)",
+    "programs are batch-free trees: every yielded future is created in the yield (no shared tasks - a task object yielded "
+    "twice is 'cannot reuse already awaited coroutine' under asyncio -, no batch items, no ErrorFuture / lazy Future, which "
+    "resolve_awaitables does not know)",
+    "hypotheses of the equivalence theorems (each with a machine-checked counterexample): Prog.safe (every handler is `except "
+    "Exception`, or no BaseException-only error is raised), Prog.plainY (no yielded instance of a subclass of tuple / list / "
+    "dict, no async_proxy function returning a non-future), and for statements about outcomes Prog.noSync or 'the asyncio run "
+    "logged no synchronous call' (refused by design); programs outside them ARE generated and reported (known findings)",
     "BaseException-only errors are instances of a user-defined subclass of BaseException (KeyboardInterrupt, SystemExit and "
     "asyncio.CancelledError, which the event loop itself interprets, are not raised; they do occur as returned VALUES)",
     "an explicit asyncio_fn is a faithful asyncio version of the function (here: it logs and awaits the undecorated "
     "function's .asyncio())",
-    "asynq.result(x) of a future-like x asserts on both engines alike and is not generated",
+    "asynq.result(x) of a future-like x asserts on both engines alike and is not generated; allow_sync_call=True, "
+    "classmethod / staticmethod and sync_fn= pairs are not generated",
 ]
 CASE_TIMEOUT = 30
 CONVS = ["call", "value", "aio", "aiorun", "aiotask"]
@@ -88,10 +125,16 @@ AFN_KINDS = ("gen", "meth", "proxy", "plain")
 #           (raiseB: an error whose class derives from BaseException only; yldB: the handler is `except BaseException`)
 #   ys   := "none" | "junk" | ["const", v] | ["pconst", v] | ["task", call, prog] | ["tup", ys...] | ["lst", ys...]
 #           | ["dict", [key, ys]...]
+#           | ["tupS", ys...] | ["lstS", ys...] | ["dictS", [key, ys]...]   the same containers as instances of a SUBCLASS
+#           | ["pval", ys]   proxy.asynq() of an @async_proxy() function that returns the object ys (None or a container)
 #   call := [kind, afn(0/1), label]
 # ---------------------------------------------------------------------------------------------------
 
 YLD = ("yld", "yldB")
+SEQ_TAGS = ("tup", "lst", "tupS", "lstS")
+MAP_TAGS = ("dict", "dictS")
+SUB_TAGS = ("tupS", "lstS", "dictS")          # instances of strict subclasses of tuple / list / dict
+CONTAINER_TAGS = SEQ_TAGS + MAP_TAGS
 
 
 def has_yield(p):
@@ -126,10 +169,12 @@ def walk_ys(y):
         y = stack.pop()
         yield y
         if isinstance(y, list):
-            if y[0] in ("tup", "lst"):
+            if y[0] in SEQ_TAGS:
                 stack.extend(reversed(y[1:]))
-            elif y[0] == "dict":
+            elif y[0] in MAP_TAGS:
                 stack.extend(x for _, x in reversed(y[1:]))
+            elif y[0] == "pval":
+                stack.append(y[1])
 
 
 def walk_ys_progs(y):
@@ -151,6 +196,16 @@ def has_base_handler_and_raise(p):
     return "yldB" in ops and "raiseB" in ops
 
 
+def ys_tags(p):
+    """tags of all yielded structures of a program (children included)"""
+    tags = set()
+    for q in walk_progs(p):
+        if q[0] in YLD:
+            for x in walk_ys(q[1]):
+                tags.add(x[0] if isinstance(x, list) else x)
+    return tags
+
+
 def count_tasks(p):
     n = 0
     for q in walk_progs(p):
@@ -170,6 +225,8 @@ class Gen(object):
         self.p_wide = p_wide      # probability that a structure has 5-40 entries
         self.p_base = 0.0         # probability that a raised error is BaseException-only
         self.p_bh = 0.0           # probability that a handler is `except BaseException`
+        self.p_sub = 0.0          # probability that a yielded container is an instance of a subclass
+        self.p_pval = 0.0         # probability that a leaf is an async_proxy call returning None / a container
 
     def tag(self):
         rng = self.rng
@@ -245,10 +302,20 @@ class Gen(object):
                 n = rng.randint(5, 40)
             els = [self.ys(depth, nest + 1, p_res, p_sync) for _ in range(n)]
             shape = rng.choice(["tup", "lst", "dict"])
-            if shape == "dict":
+            if self.p_sub and rng.random() < self.p_sub:
+                shape += "S"
+            if shape in MAP_TAGS:
                 keys = rng.sample(range(max(20, 2 * n)), n)
-                return ["dict"] + [[k, e] for k, e in zip(keys, els)]
+                return [shape] + [[k, e] for k, e in zip(keys, els)]
             return [shape] + els
+        if self.p_pval and nest < 3 and rng.random() < self.p_pval:
+            if rng.random() < 0.4:
+                return ["pval", "none"]
+            els = [self.ys(depth, nest + 1, p_res, p_sync) for _ in range(rng.randint(0, 3))]
+            shape = rng.choice(["tup", "lst", "dict"])
+            if shape == "dict":
+                return ["pval", ["dict"] + [[k, e] for k, e in zip(rng.sample(range(20), len(els)), els)]]
+            return ["pval", [shape] + els]
         r = rng.random()
         if r < 0.07:
             return "none"
@@ -277,6 +344,14 @@ def gen_case(rng, budget=None):
     # BaseException-only errors with `except Exception` handlers (both engines let them through to the caller), handlers that
     # catch BaseException without such errors, and - rarely - both together (where the engines differ: GEN_BASE_DEFECT)
     g.p_base, g.p_bh = rng.choice([(0, 0)] * 10 + [(0.3, 0)] * 3 + [(0, 0.4)] * 2 + ([(0.3, 0.4)] if GEN_BASE_DEFECT else []))
+    # yielded instances of subclasses of tuple / list / dict, async_proxy functions returning None or a container - never
+    # together and never with the BaseException combination above (one divergence per program: see `signature`)
+    odd = rng.choice([None] * 14 + ["sub", "pval"])
+    if odd and not (g.p_base and g.p_bh):
+        if odd == "sub":
+            g.p_sub = rng.choice([0.2, 0.5])
+        else:
+            g.p_pval = rng.choice([0.15, 0.4])
     p_res = rng.choice([0.0, 0.0, 0.0, 0.05, 0.15])
     p_sync = rng.choice([0.0, 0.0, 0.05, 0.15])
     body = g.prog(0, rng.randint(1, 4), False, p_res, p_sync)
@@ -379,6 +454,23 @@ def family():
     # a handler that catches BaseException, but only ordinary errors around
     cases.append({"top": [["gen", 0, 0], ["yldB", ["lst", ["task", ["gen", 0, 1], ["raise", 2]]], ["ret", 1], ["ret", 2]]]})
     cases.append({"top": [["gen", 0, 0], ["yldB", ["task", ["gen", 0, 1], ["ret", 2]], ["ret", 1], ["ret", 2]]]})
+    # instances of SUBCLASSES of tuple / list / dict yielded (a namedtuple, an OrderedDict): asynq raises TypeError at the yield
+    # and runs nothing of it, resolve_awaitables resolves it like the base class (C15_container_subclass_counterexample)
+    t5 = ["task", ["gen", 0, 1], ["ret", 5]]
+    f2 = ["task", ["meth", 0, 2], ["raise", 2]]
+    for y in (["tupS", ["const", 1], ["const", 2]], ["lstS", t5, "none"], ["dictS", [3, ["const", 1]], [1, t5]], ["tupS"],
+              ["lstS"], ["dictS"], ["tup", ["const", 1], ["tupS", t5]], ["lst", f2, ["lstS", ["const", 1]]],
+              ["lst", ["lstS", ["const", 1]], f2], ["dictS", [1, ["lst", t5, f2]]], ["tupS", ["tupS", ["const", 3]]]):
+        for h in (["reraise"], ["ret", 2]):
+            cases.append({"top": [["gen", 0, 0], ["yld", y, ["ret", 1], h]]})
+    cases.append({"top": [["meth", 1, 0], ["yld", ["tupS", t5], ["ret", 1], ["yld", t5, ["ret", 3], ["reraise"]]]]})
+    # @async_proxy() functions returning None or a container of futures instead of one future: asynq yields what they return,
+    # AsyncProxyDecorator.asyncio awaits it (C15_proxy_value_counterexample)
+    for inner in ("none", ["lst", t5, ["const", 2]], ["tup"], ["dict", [1, t5]], ["lst", f2, t5], ["tupS", ["const", 1]]):
+        for h in (["reraise"], ["ret", 2]):
+            cases.append({"top": [["gen", 0, 0], ["yld", ["pval", inner], ["ret", 1], h]]})
+        cases.append({"top": [["gen", 0, 0], ["yld", ["lst", ["pval", inner], ["task", ["gen", 0, 3], ["ret", 4]]], ["ret", 1], ["ret", 2]]]})
+    cases.append({"top": [["gen", 0, 0], ["yld", ["tupS", ["pval", "none"]], ["ret", 1], ["ret", 2]]]})
     if GEN_BASE_DEFECT:
         # ... and where it meets a BaseException-only error: the engines differ (C15_base_handler_counterexample)
         cases.append({"top": [["gen", 0, 0], ["yldB", ["task", ["gen", 0, 1], ["raiseB", 1]], ["ret", 1], ["ret", 2]]]})
@@ -614,8 +706,17 @@ def shrink_ys(y):
             if c[0] == "plain" and has_yield(q):
                 continue
             yield ["task", c, q]
-    elif tag in ("tup", "lst"):
+    elif tag == "pval":
+        yield y[1]
+        if y[1] != "none":
+            yield ["pval", "none"]
+        for e2 in shrink_ys(y[1]):
+            if e2 == "none" or (isinstance(e2, list) and e2[0] in CONTAINER_TAGS):
+                yield ["pval", e2]
+    elif tag in SEQ_TAGS:
         els = y[1:]
+        if tag in SUB_TAGS:
+            yield [tag[:-1]] + els
         for i in range(len(els)):
             yield [tag] + els[:i] + els[i + 1:]
         for e in els:
@@ -623,8 +724,10 @@ def shrink_ys(y):
         for i, e in enumerate(els):
             for e2 in shrink_ys(e):
                 yield [tag] + els[:i] + [e2] + els[i + 1:]
-    elif tag == "dict":
+    elif tag in MAP_TAGS:
         els = y[1:]
+        if tag in SUB_TAGS:
+            yield [tag[:-1]] + els
         for i in range(len(els)):
             yield [tag] + els[:i] + els[i + 1:]
         for _, e in els:
@@ -772,11 +875,23 @@ def neighbours(case, rng):
             yield q
 
 
+DIVERGENCE_CLAUSES = ("fail:equiv", "fail:deliveries")
+
+
 def signature(case, v):
     clause = v.get("spec", "ok")
-    if clause == "fail:equiv" and has_base_handler_and_raise(expand(case)[1]):
-        # a BaseException-only error of an awaited child is not delivered to the body by convert_asynq_to_async
-        return "base-exception-not-delivered-to-handler"
+    if clause in DIVERGENCE_CLAUSES:
+        p = expand(case)[1]
+        if has_base_handler_and_raise(p):
+            # a BaseException-only error of an awaited child is not delivered to the body by convert_asynq_to_async
+            return "base-exception-not-delivered-to-handler"
+        tags = ys_tags(p)
+        if tags & set(SUB_TAGS):
+            # `isinstance(x, list/tuple/dict)` in resolve_awaitables vs `type(value) is ...` in unwrap / extract_futures
+            return "container-subclass-yield-accepted-by-asyncio"
+        if "pval" in tags:
+            # AsyncProxyDecorator.asyncio (unwrap_coroutine) awaits whatever the function returned unless it is a ConstFuture
+            return "async-proxy-non-future-result-not-resolved"
     if clause == "fail:result-escapes" and has_res(expand(case)[1]):
         # AsyncTaskResult leaves .asyncio() as an exception (repaired in /repo; the signature of the former finding is kept)
         return "asynq.result()-escapes-asyncio"
@@ -921,6 +1036,14 @@ def mk_node(tag, kids):
     return node_class(VALUE_KINDS[k] if k < len(VALUE_KINDS) else "plain")(tag, tuple(kids))
 
 
+class TupSub(tuple):
+    """a strict subclass of tuple, as a namedtuple is (any width)"""
+
+
+class LstSub(list):
+    """a strict subclass of list"""
+
+
 class UserError(Exception):
     pass
 
@@ -946,6 +1069,7 @@ class Harness(object):
         self.mode = asynq.is_asyncio_mode
         self.log = []
         self.finished = set()
+        self.started = set()
         self.err = {}
         self.berr = {}
         self.err_tok = {}
@@ -998,6 +1122,11 @@ class Harness(object):
         def pconst_fn(v):
             return asynq.ConstFuture(v)
 
+        @asynq.async_proxy()
+        def pval_fn(thunk):
+            # an async_proxy function that returns None or a tuple / list / dict (of futures) instead of one future
+            return thunk()
+
         class K(object):
             @asynq.asynq()
             def meth(self, label, body):
@@ -1023,6 +1152,7 @@ class Harness(object):
         self.unbound = {0: K.meth, 1: K.meth_afn}
         self.canary = canary
         self.pconst_fn = pconst_fn
+        self.pval_fn = pval_fn
         self.pure_fn = pure_fn
         self.fns = {
             ("gen", 0): gen_fn, ("gen", 1): gen_fn_afn,
@@ -1156,7 +1286,11 @@ class Harness(object):
             return self.tracked(self.asynq.async_call.asyncio(fn, *args, **kwargs), c[2])
         return self.tracked(fn.asyncio(*args, **kwargs), c[2])
 
-    def build(self, y, labels):
+    def build(self, y, labels, cond, in_cond=False):
+        """the Python object of a yielded structure.  `labels`: the tasks yielded together that have to be finished when
+        the yield returns or raises.  `cond`: tasks inside an instance of a container SUBCLASS or inside what an
+        async_proxy function returned - whether the engine takes those as awaitables at all is what asynq and asyncio (as
+        they are) disagree on, so they have to be finished only if the engine has STARTED them."""
         if y == "none":
             return None
         if y == "junk":
@@ -1167,14 +1301,28 @@ class Harness(object):
         if tag == "pconst":
             return self.pconst_fn.asynq(y[1])
         if tag == "task":
-            labels.append(y[1][2])
+            (cond if in_cond else labels).append(y[1][2])
             return self.make(y[1], y[2])
         if tag == "tup":
-            return tuple(self.build(x, labels) for x in y[1:])
+            return tuple(self.build(x, labels, cond, in_cond) for x in y[1:])
         if tag == "lst":
-            return [self.build(x, labels) for x in y[1:]]
+            return [self.build(x, labels, cond, in_cond) for x in y[1:]]
         if tag == "dict":
-            return {k: self.build(x, labels) for k, x in y[1:]}
+            return {k: self.build(x, labels, cond, in_cond) for k, x in y[1:]}
+        if tag == "tupS":
+            return TupSub(self.build(x, labels, cond, True) for x in y[1:])
+        if tag == "lstS":
+            return LstSub(self.build(x, labels, cond, True) for x in y[1:])
+        if tag == "dictS":
+            import collections
+            return collections.OrderedDict((k, self.build(x, labels, cond, True)) for k, x in y[1:])
+        if tag == "pval":
+            inner = y[1]
+            if not (inner == "none" or (isinstance(inner, list) and inner[0] in CONTAINER_TAGS)):
+                raise IllFormed("bad proxy result %r" % (inner,))
+            # asynq: the function runs now and what it returns is the yielded object; asyncio mode: .asynq() returns the
+            # coroutine of AsyncProxyDecorator.asyncio and the function runs when that is awaited
+            return self.pval_fn.asynq(lambda: self.build(inner, labels, cond, True))
         raise IllFormed("bad structure %r" % (y,))
 
     # ------------------------------------------------------------------ interpreter of bodies
@@ -1184,6 +1332,7 @@ class Harness(object):
         caught = None
         i = 0
         self.emit(["start", label, bool(self.mode())])
+        self.started.add(label)
         while True:
             op = body[0]
             if op == "ret":
@@ -1211,7 +1360,8 @@ class Harness(object):
                     self.fin(label, ["err", ["other", "IllFormed"]])
                     raise IllFormed("a function that is not a generator cannot yield")
                 labels = []
-                y = self.build(body[1], labels)
+                cond = []
+                y = self.build(body[1], labels, cond)
                 try:
                     v = yield y
                 except GeneratorExit:
@@ -1232,7 +1382,7 @@ class Harness(object):
                     env.append(v)
                     body = body[2]
                 i += 1
-                dc = all(l in self.finished for l in labels)
+                dc = all(l in self.finished for l in labels) and all(l in self.finished for l in cond if l in self.started)
                 self.emit(["run", label, i, dc, bool(self.mode()), recv])
             elif op == "sync":
                 try:
@@ -1295,6 +1445,7 @@ class Harness(object):
     def fresh_log(self):
         self.log = []
         self.finished = set()
+        self.started = set()
 
     def run(self, conv, c, p, warm=False):
         """warm: the same computation has been run once before - by the same functions, and for `aio` on the same event
@@ -1406,8 +1557,10 @@ def run_case(case):
                 if isinstance(x, list):
                     if x[0] == "task":
                         kinds.add("child=%s%s" % (x[1][0], "+afn" if x[1][1] else ""))
-                    elif x[0] in ("tup", "lst", "dict"):
+                    elif x[0] in CONTAINER_TAGS:
                         shapes.add("yield=%s%s" % (x[0], "-empty" if len(x) == 1 else ""))
+                    elif x[0] == "pval":
+                        shapes.add("yield=proxy-returning-%s" % ("none" if x[1] == "none" else "container"))
                     else:
                         shapes.add("yield=" + x[0])
                 else:
@@ -1428,7 +1581,7 @@ def run_case(case):
     for q in walk_progs(p):
         if q[0] in YLD:
             for x in walk_ys(q[1]):
-                if isinstance(x, list) and x[0] in ("tup", "lst", "dict"):
+                if isinstance(x, list) and x[0] in CONTAINER_TAGS:
                     width = max(width, len(x) - 1)
             depth = max(depth, ys_depth(q[1]))
         elif q[0] in ("ret", "res") and q[1] >= 10 and q[1] // 10 < len(VALUE_KINDS):
@@ -1463,8 +1616,10 @@ def ys_depth(y):
     stack = [(y, 0)]
     while stack:
         y, d = stack.pop()
-        if isinstance(y, list) and y[0] in ("tup", "lst", "dict"):
+        if isinstance(y, list) and y[0] in CONTAINER_TAGS:
             best = max(best, d + 1)
-            for x in (y[1:] if y[0] != "dict" else [w[1] for w in y[1:]]):
+            for x in (y[1:] if y[0] not in MAP_TAGS else [w[1] for w in y[1:]]):
                 stack.append((x, d + 1))
+        elif isinstance(y, list) and y[0] == "pval":
+            stack.append((y[1], d))
     return best
